@@ -38,7 +38,8 @@ func (d *dependencyFurtherMatchingPostProcessors) PostProcessProperties(properti
 				if prop.IsRequired() {
 					return nil, errors.WithMessagef(err, "field '%s' is required but not found any components", prop.String())
 				}
-				return nil, nil
+				prop.Injects = nil
+				continue
 			}
 			return nil, err
 		}
